@@ -913,13 +913,15 @@ def load(f, **options):  # type: (typing.IO, **typing.Any) -> canmatrix.CanMatri
                     frame = get_frame_by_id(canmatrix.ArbitrationId.from_compound_integer(int(frame_id)))
                     if frame is not None:
                         signal = frame.signal_by_name(signal_name)
-                        frame.is_complex_multiplexed = True
-                        signal.muxer_for_signal = muxer_for_signal
+                        # convert all ranges first: a malformed line must not leave a partial effect
+                        mux_val_ranges = []
                         for muxVal in mux_val_groups:
                             mux_val_min, mux_val_max = muxVal.split("-")
-                            mux_val_min_number = int(mux_val_min)
-                            mux_val_max_number = int(mux_val_max)
-                            signal.mux_val_grp.append([mux_val_min_number, mux_val_max_number])
+                            mux_val_ranges.append([int(mux_val_min), int(mux_val_max)])
+                        if signal is not None:
+                            frame.is_complex_multiplexed = True
+                            signal.muxer_for_signal = muxer_for_signal
+                            signal.mux_val_grp.extend(mux_val_ranges)
             elif decoded.startswith("EV_ "):
                 pattern = r"^EV_ +([\S\-\_]+?) *\: +([0-9]+) +\[([0-9.+\-eE]+)\|([0-9.+\-eE]+)\] +\"(.*?)\" +([0-9.+\-eE]+) +([0-9.+\-eE]+) +([\S\-]+?) +(.*); *"
                 regexp = re.compile(pattern)
